@@ -8,6 +8,11 @@
                                                                "<result> log=<callback log>", e.g. "ok:f2(f1(prefault:value)) log=f1(prefault:value);f2(f1(prefault:value))"
     c03 wval <stack> <ok|bad> <op>*                          → a non-nil input the base accepts / rejects: "<result> log=<…> base=same"
                                                                (base=same: the harness ran the unmodified base schema under the same wrappers and saw the same)
+    c03 cseq <ctx> / <entry> <in> <rule> <admitsNil> <ownNilPath> <op>* / …   → a sequence of parses through ONE context (<ctx> = fresh|new|report|flag|errmap:
+                                                               how the caller made it); <entry> = Parse|ParseAny|MustParse|StrictParse, <in> = nil|nilptr|ok|bad;
+                                                               observation = "<o1> / <o2> / … ctx=same" (a step that differs from the same parse through a
+                                                               fresh context carries "!fresh=<that outcome>")
+    c03 csib <tuple|object|array> <ctx|none> / Child <in> <rule> <admitsNil> <ownNilPath> <op>* / …   → the same steps as children of one container parse
   op := Optional | Nilable | Nullish | NonOptional | Default:v|i | DefaultFunc:v|i | Prefault:v|i | PrefaultFunc:v|i | Overwrite | Refine
   The raw line is "<op line> @ <implementation outcome>"; the spec verdict echoes the implementation's
   outcome when `specNil` admits it and is "spec-rejects:<expected>" otherwise.
@@ -52,11 +57,152 @@ def renderObs (short : Bool) (p : R × List Call) : String :=
     | .err o => if short then "err" else renderOutcome o
   r ++ " log=" ++ (if p.2.isEmpty then "-" else ";".intercalate (p.2.map renderCall))
 
+/-! ### sequences of parses through one context (`cseq`) and children of one container (`csib`) -/
+
+structure StepD where
+  entry : String
+  inp : String
+  rule : RefineRule
+  adm : Bool
+  own : Bool
+  h : List Op
+
+def parseStepD (seg : String) : Option StepD :=
+  match (seg.splitOn " ").filter (· ≠ "") with
+  | entry :: inp :: rule :: adm :: own :: ops =>
+    match ops.mapM parseOp with
+    | some h => some ⟨entry, inp, if rule == "nilable" then .nilableFlag else .ptrTy, adm == "1", own == "1", h⟩
+    | none => none
+  | _ => none
+
+def StepD.input (d : StepD) : In :=
+  if d.inp == "ok" then .valid else if d.inp == "bad" then .invalid else .nil
+
+def parseCtx : String → Ctx
+  | "report" => { reportInput := true }
+  | "flag" => { isPrefaultContext := true }
+  | "errmap" => { errMap := true }
+  | _ => {}
+
+def stripMark (s : String) : String := (s.splitOn "!").headD s
+
+def isSuccess : Outcome → Bool
+  | .dflt _ | .prefaultOk _ | .nil => true
+  | _ => false
+
+def resultOutcome : R → Option Outcome
+  | .ok (.src o) => some o
+  | .err o => some o
+  | _ => none
+
+/-- One step's result as `cseq` renders it. -/
+def renderStep (d : StepD) (r : R) : String :=
+  if d.inp == "ok" || d.inp == "bad" then (match r with | .ok _ => "ok" | .err _ => "err")
+  else match resultOutcome r with
+    | some o => renderOutcome o
+    | none => "ok"
+
+def admissible (d : StepD) : List Outcome := allOutcomes.filter (specNil d.adm d.h)
+
+/-- The statement's verdict on one observed step outcome (judged by `specNil` on that step's own history). -/
+def specStepStr (d : StepD) (io : String) : String :=
+  if d.inp == "ok" then "ok" else if d.inp == "bad" then "err"
+  else match parseOutcome io with
+    | some o => if specNil d.adm d.h o then io
+                else "spec-rejects:expected " ++ " | ".intercalate ((admissible d).map renderOutcome)
+    | none => "spec-rejects:unclassified-outcome"
+
+def handleSeq (init : String) (segs : List String) (impl : Option String) : String :=
+  match segs.mapM parseStepD with
+  | none => "bad-op"
+  | some ds =>
+    let c0 := parseCtx init
+    let run := runSeq ctxStep c0 (ds.map fun d => ((⟨d.adm, applyAll d.rule {} d.h⟩ : Sch), d.input))
+    let (iSteps, _) := match impl with
+      | some io => (match io.splitOn " ctx=" with
+                    | [a, b] => ((a.splitOn " / ").map some, b)
+                    | _ => ([], "?"))
+      | none => ([], "?")
+    let implAt := fun (k : Nat) => (iSteps.getD k none)
+    -- StrictParse's nil outcome against the documented one is C09's subject (Parse = StrictParse); here such a step
+    -- takes part in the sequence and is judged for context independence only. Types with a private nil path echo.
+    let echo := fun (d : StepD) => d.own || d.entry == "StrictParse"
+    let idx := List.range ds.length
+    let ms := idx.map fun k =>
+      match ds[k]?, run.2[k]? with
+      | some d, some r => if echo d then (implAt k).getD "-" else renderStep d r
+      | _, _ => "?"
+    let ss := idx.map fun k =>
+      match ds[k]? with
+      | some d =>
+        (match implAt k with
+         | none => "-"
+         | some io => if d.entry == "StrictParse" then stripMark io else specStepStr d (stripMark io))
+      | none => "?"
+    let cm := if run.1 == c0 then "same" else "changed"
+    " / ".intercalate ms ++ " ctx=" ++ cm ++ "\t" ++ (if impl.isSome then " / ".intercalate ss ++ " ctx=same" else "-")
+
+/-- A child's outcome as a container's error reports it: the code (`invalid_type` for both the nonoptional and the
+    type error — `Expected` does not survive the path-prepending conversion), custom, or a check issue. -/
+def renderSibErr : Outcome → String
+  | .nonOptional | .typeError => "err:type"
+  | o => renderOutcome o
+
+def handleSib (kind init : String) (segs : List String) (impl : Option String) : String :=
+  match segs.mapM parseStepD with
+  | none => "bad-op"
+  | some ds =>
+    let c0 := if init == "none" then ({} : Ctx) else parseCtx init
+    -- `validateTupleForEngine` / `validateObject` / `validateArray`: `schema.ParseAny(child, ctx)` for every child, one ctx
+    let run := runSeq ctxStep c0 (ds.map fun d => ((⟨d.adm, applyAll d.rule {} d.h⟩ : Sch), d.input))
+    let iSteps := match impl with
+      | some io => (match io.splitOn " ctx=" with
+                    | [a, _] => (a.splitOn " / ").map some
+                    | _ => [])
+      | none => []
+    let implAt := fun (k : Nat) => (iSteps.getD k none)
+    let idx := List.range ds.length
+    let isErrStr := fun (s : String) => s.startsWith "err" || s.startsWith "panic"
+    -- does any child fail? (own-nil-path children: what the implementation showed)
+    let anyErr := idx.any fun k =>
+      match ds[k]?, run.2[k]? with
+      | some d, some r => if d.own then isErrStr ((implAt k).getD "-") else (match r with | .err _ => true | .ok _ => false)
+      | _, _ => false
+    let ms := idx.map fun k =>
+      match ds[k]?, run.2[k]? with
+      | some d, some r =>
+        if d.own then (implAt k).getD "-" else
+        (match r with
+         | .err o => if kind == "array" || d.inp == "ok" || d.inp == "bad" then "err" else renderSibErr o
+         | .ok _ => if kind == "tuple" && !anyErr then renderStep d r else "ok")
+      | _, _ => "?"
+    let ss := idx.map fun k =>
+      match ds[k]? with
+      | some d =>
+        (match implAt k with
+         | none => "-"
+         | some io =>
+           if d.inp == "ok" then "ok" else if d.inp == "bad" then "err" else
+           let adm := admissible d
+           let okAdm := adm.any isSuccess
+           let errs := (adm.filter (fun o => !isSuccess o)).map fun o => if kind == "array" then "err" else renderSibErr o
+           if io == "ok" then (if okAdm then io else "spec-rejects:expected " ++ " | ".intercalate errs)
+           else if errs.contains io then io
+           else match parseOutcome io with
+             | some o => if isSuccess o && specNil d.adm d.h o then io
+                         else "spec-rejects:expected " ++ " | ".intercalate (adm.map renderOutcome)
+             | none => "spec-rejects:expected " ++ " | ".intercalate (adm.map renderOutcome))
+      | none => "?"
+    let cm := if run.1 == c0 then "same" else "changed"
+    " / ".intercalate ms ++ " ctx=" ++ cm ++ "\t" ++ (if impl.isSome then " / ".intercalate ss ++ " ctx=same" else "-")
+
 def handleLine (line : String) : String :=
   let (lhs, impl) := match line.splitOn " @ " with
     | [a, b] => (a, some b)
     | _ => (line, none)
   match (lhs.splitOn " ").filter (· ≠ "") with
+  | "c03" :: "cseq" :: init :: _ => handleSeq init ((lhs.splitOn " / ").drop 1) impl
+  | "c03" :: "csib" :: kind :: init :: _ => handleSib kind init ((lhs.splitOn " / ").drop 1) impl
   | "c03" :: "val" :: _ => "same\tsame"
   | "c03" :: "wval" :: stack :: okbad :: ops =>
     match parseStack stack, ops.mapM parseOp with
